@@ -54,6 +54,20 @@ def rpc_methods(F):
                         ids.append(f.id)
             handlers += ids
         out.append((name, sorted(methods), handlers, c))
+    # `#[method(name = "x", aliases = ["y"])]` registers the same handler under a second name: `register_alias(alias, existing)`.
+    # An alias is a registered method in its own right (the deny list matches by the name on the wire)
+    by_name = {n: (ms, hs) for (n, ms, hs, _c) in out}
+    for c in into_rpc.calls():
+        if not c.path or not c.path.endswith("register_alias") or into_rpc.is_cleanup(c.bb):
+            continue
+        strs = [const_value(a) for a in c.args]
+        strs = [v for v in strs if isinstance(v, str)]
+        if len(strs) == 2:
+            alias, existing = strs
+            ms, hs = by_name.get(existing, ([], []))
+            out.append((alias, list(ms), list(hs), c))
+        else:
+            out.append((None, [], [], c))     # an alias whose names cannot be read: fails the resolution obligation
     return out
 
 
